@@ -4,29 +4,40 @@ Deciding method (TLA+ is the oracle):
 
  1. design level, TLC exhaustive:
       spec/Hash.tla (over spec/HashSem.tla): a value-builder state machine whose
-      reachable states are a bounded adversarial universe of values; in every state
-      Injective / Stable compare the value with every value of the universe, Enc
-      being nutils_hash transcribed branch by branch and Canon the behavioural
-      identity.  Checked twice: TagMode="qualified" (proposed repair) must hold --
-      vacuity guard on action coverage --, TagMode="name" (the code as written)
-      yields the model-level collisions TLC predicts for the code.
+      reachable states are a bounded adversarial universe of values (and of calls of
+      functions memoised with cache.function); in every state Injective / Stable
+      compare the value with every value of the universe, Enc being nutils_hash (and
+      the __nutils_hash__ properties, and the cache.function key) transcribed branch
+      by branch and Canon the behavioural identity.  Checked twice:
+      TagMode="qualified" (proposed repair) must hold -- vacuity guard on action
+      coverage --, TagMode="name" (the code as written) yields the model-level
+      collisions TLC predicts for the code.
       spec/Intern.tla: weak intern tables with Construct/Drop/Dump/Load; exact-key
-      variant = oracle, python-equality-key variant = spec mutant that must fail.
+      variant = oracle, python-equality-key variant = spec mutant that must fail; a
+      shadow python-equality table is stepped alongside to name the root cause.
  2. binding to the code:
-      S->C  every value TLC emitted is materialised in python by the recorded
-            construction route (classes are built from the model's class table);
-      T     the digests computed by the live nutils_hash -- in this process, in fresh
-            interpreters under other PYTHONHASHSEEDs, after pickle round trips (same
-            and other process), after rebuilding -- and the exported structure of
-            real nutils objects (transform/reference sequences, samples, evaluable
-            expressions, compiled functions, solver systems/methods) go back to TLC
+      S->C  every value TLC emitted (plus seed-dependent random nestings of the same
+            grammar) is materialised in python by the recorded construction route
+            (the classes are built from the model's class table); a route that does
+            not yield the value the model describes is a violation;
+      T     the digests computed by the live nutils_hash (cache file names for
+            memoised calls) -- in this process, in fresh interpreters under other
+            PYTHONHASHSEEDs, after pickle round trips (same and other process),
+            after rebuilding -- and the exported structure of real nutils objects
+            (transform/reference sequences, samples, evaluable expressions, compiled
+            functions, solver systems/methods, array data) go back to TLC
             (spec/HashTable.tla) which evaluates RealInjective / RealStable /
             RealRoutes with Canon computed by the model, and ModelMatch (the real
             equality pattern is the pattern of Enc: binds the transcription);
       S->C  every behaviour of Intern (exact keys) is replayed on fresh Singleton /
-            DataClass classes and on types.arraydata with del / gc / pickle, comparing
+            DataClass classes and on types.arraydata with del / pickle, comparing
             after every step the object identity, the arguments the object carries,
             the size of the weak table and the nutils hash with the model's prediction.
+
+Root-cause keys: hash:type-tag-name-only, hash:collision:<kind>~<kind>,
+hash:unstable:<kind>:<routes|seed|pickle|xpickle|rebuilt>, hash:raises:<kind>,
+materialise:<kind>:<route>, intern:<base>:pyeq-key, intern:<base>:<op>-mismatch,
+intern:<base>:entry-outlives-object, real-corpus:raises:<exception>.
 """
 
 import collections
@@ -255,7 +266,7 @@ def real_table(rep, classtab, terms, tier, rng):
     reg = V.Registry(classtab)
     # random nestings of the same grammar (seed dependent), judged by TLC like the emitted universe
     known = {json.dumps(t) for t in terms}
-    extra = [t for t in V.random_terms(rng, 400 if tier == 'quick' else 4000, reg) if json.dumps(t) not in known]
+    extra = [t for t in V.random_terms(rng, 400 if tier == 'quick' else 2000, reg) if json.dumps(t) not in known]
     terms = terms + extra
     rep.extra['random_terms'] = len(extra)
     n = len(terms)
@@ -643,6 +654,7 @@ def run(rep):
     rng = random.Random(rep.seed)
     shutil.rmtree(WORKROOT, ignore_errors=True)
     os.makedirs(WORKROOT)
+    os.environ['VF_C17_TMP'] = WORKROOT      # cache directories of the memoised calls (inherited by the workers)
     ex, fut = start_design(tier, rep.seed)
     try:
         res = {'code': fut['code'].result()}
